@@ -276,13 +276,20 @@ def run(ctx):
     ctx.exhaustive = False       # the enumeration is exhaustive, the replay of the large runs is a seeded sample
     total = 0
     first = True
+    # vacuity guard: every stage action and every transformation is taken (TLC -coverage on tiny
+    # configurations: the coverage output of long runs is too large to parse)
+    for mode, extra, acts in (('single', dict(nobs=3), ['Average', 'Kernel', 'Build', 'SortAlpha', 'Single',
+                                                        'PermuteRows', 'PermuteChannels']),
+                              ('list', dict(nobs=2, nobs2=2), ['ListBranch', 'PermuteRows']),
+                              ('movie', dict(nobs=2, nt=2, binids=(0, 1)), ['Movie', 'PermuteRows'])):
+        r = ctx.tlc('MC_CalcRdm', C.cfg(mode=mode, nch=2, nlab=2, datasrc='cat', dataids=(1,), methods=('euclidean', 'poisson'),
+                                        usedescs=(True, False), permlevel=1, emit=False, **extra),
+                    name=f'cov_{mode}', workers=4, coverage=True, timeout=900)
+        ctx.require_coverage(r, acts)
     for name, kw, nfloat in runs:
-        cov = name == 'single_perm'
-        r = ctx.tlc('MC_CalcRdm', C.cfg(**kw), name=name, workers=W, timeout=1700, coverage=cov)
+        r = ctx.tlc('MC_CalcRdm', C.cfg(**kw), name=name, workers=W, timeout=1700)
         if not r.n_emitted:
             raise MachineryError(f'TLC emitted no vectors in {name}')
-        if cov:
-            ctx.require_coverage(r, ['Average', 'Kernel', 'Build', 'SortAlpha', 'Single', 'PermuteRows', 'PermuteChannels'])
         if first:
             binding_selftest(ctx, r, PID)
             first = False
